@@ -12,7 +12,7 @@ EDGES = [("linsrgb", "xyz"), ("xyz", "linsrgb"), ("xyz", "lab"), ("lab", "xyz"),
          ("yxy", "xyz"), ("xyz", "oklab"), ("oklab", "xyz"), ("linsrgb", "oklab"), ("oklab", "linsrgb"), ("lab", "lch"), ("lch", "lab"),
          ("luv", "lchuv"), ("lchuv", "luv"), ("oklab", "oklch"), ("oklch", "oklab"), ("srgb", "hsv"), ("hsv", "srgb"), ("srgb", "hsl"),
          ("hsl", "srgb"), ("hsv", "hwb"), ("hwb", "hsv"), ("okhsv", "okhwb"), ("okhwb", "okhsv"), ("hsv", "hsl"), ("hsl", "hsv"),
-         ("xyz", "linluma"), ("linluma", "xyz")]
+         ("xyz", "linluma"), ("linluma", "xyz"), ("xyz", "lmsvk"), ("lmsvk", "xyz"), ("xyz", "lmsbfd"), ("lmsbfd", "xyz")]
 WHITE = (0.95047, 1.0, 1.08883)
 LAB_EPS = 216.0 / 24389.0
 
@@ -100,7 +100,7 @@ def run(ctx):
                   rule="a case is one input colour converted along one hand-written edge; distinct by edge and exact input; every case "
                        "evaluates a defining equation (non-trivial)",
                   explanation="MC_ColourMath: 17 self-checks of the reference (derived sRGB matrix hits the white point and inverts, f(t) "
-                              "continuous at the join, known exact points accepted, perturbed points rejected). 30 directed edges x lattice, "
+                              "continuous at the join, known exact points accepted, perturbed points rejected). 34 directed edges x lattice, "
                               "threshold-straddling and random inputs x f32/f64 are judged by TLC with the relations of ColourMath.tla in "
                               "104-bit fixed point.",
                   trusted=["reference constants and formulas written in spec/ColourMath.tla with their citations",
